@@ -62,4 +62,4 @@ require (
 	sigs.k8s.io/yaml v1.4.0 // indirect
 )
 
-replace github.com/atlassian/escalator => /tmp/cfg-repo
+replace github.com/atlassian/escalator => /repo
